@@ -75,6 +75,7 @@ def run(ck):
     ck.rule("C09.R3", "Layered ordering: inner first for notifications, outer first for vetoes", floor=16)
     ck.rule("C09.R4", "Dispatch::event delivers iff event_enabled", floor=1)
     ck.rule("C09.R0", "wrapper impls discovered", floor=18)
+    ck.rule("C09.R5", "Layered::pick_interest asks the inner value on every path except the outer `never` veto", floor=1)
 
     wrappers = []
     for tr in TRAITS:
@@ -108,6 +109,7 @@ def run(ck):
             check_forwarding(ck, F, tr, imp, iname, m)
 
     check_dispatch_event(ck, F)
+    check_pick_interest(ck, F)
 
 
 def short(tr):
@@ -337,3 +339,30 @@ def check_dispatch_event(ck, F):
         ck.ok("C09.R4", "Dispatch::event", detail="event() is control-dependent on event_enabled()==true and reached on that edge")
     else:
         ck.bad("C09.R4", "Dispatch::event", where(b.raw["sp"]), "event() is not exactly guarded by event_enabled()")
+
+
+def check_pick_interest(ck, F):
+    """register_callsite is forwarded to the inner value through the `inner` closure handed to pick_interest:
+    that closure must be called exactly once on every path, except where the outer layer answered `never`
+    (the documented veto)."""
+    from rulekit.sym import PathEval, show
+    b = F.body("tracing_subscriber::subscribe::layered::Layered::<A, B, C>::pick_interest")
+    if not ck.anchor("C09.R5", "Layered::pick_interest", b):
+        return
+    problems = []
+    n = 0
+    for p in PathEval(b).run():
+        if p.end != "return":
+            continue
+        n += 1
+        calls = sum(1 for c in p.calls if c[1].get("method") == "call_once" and c[2] and c[2][0] == ("arg", 3))
+        never = any(c[0][0] == "call" and c[0][1].endswith("Interest::is_never") and c[0][2] == (("arg", 2),) and c[1] != 0 for c in p.conds)
+        if calls > 1:
+            problems.append("the inner value is asked %d times on one path" % calls)
+        elif calls == 0 and not never:
+            problems.append("a path returns %s without asking the inner value although the outer layer did not answer `never` (conditions: %s)"
+                            % (show(p.ret), [(show(c[0]), c[1]) for c in p.conds if c[0][0] != "const"]))
+    if problems or not n:
+        ck.bad("C09.R5", "pick_interest: inner asked exactly once unless outer is never", where(b.raw["sp"]), "; ".join(sorted(set(problems))) or "no paths", fn=b.path)
+    else:
+        ck.ok("C09.R5", "pick_interest: inner asked exactly once unless outer is never", fn=b.path, detail="%d return paths" % n)
